@@ -508,16 +508,46 @@ class MultiPass(Exception):
         self.node, self.text, self.written, self.single, self.multi = node, text, written, single, multi
 
 
-def _prepass(model, modname, fn, s, loop):
-    """statements outside the scanning loop that rewrite the subject string as a whole"""
-    for st in body_wo_doc(fn):
-        if st is loop or not isinstance(st, ast.Assign) or len(st.targets) != 1 or norm(st.targets[0]) != s:
+def _stmts_outside(fn, loop):
+    out = []
+    stack = list(body_wo_doc(fn))
+    while stack:
+        st = stack.pop(0)
+        if st is loop:
             continue
-        v = st.value
+        out.append(st)
+        if isinstance(st, (ast.FunctionDef, ast.AsyncFunctionDef, ast.ClassDef)):
+            continue
+        for field in ('body', 'orelse', 'finalbody'):
+            b = getattr(st, field, None)
+            if isinstance(b, list):
+                stack.extend(x for x in b if isinstance(x, ast.stmt))
+        for h in getattr(st, 'handlers', []) or []:
+            stack.extend(h.body)
+    return out
+
+
+_NEG_LOOKBEHIND = re.compile(r'^\(\?<!((?:[^()\\]|\\.)*)\)')
+
+
+def _prepass(model, modname, fn, s, loop):
+    """statements outside the scanning loop (at any depth) that rewrite the subject string as a whole; with no loop
+    at all, two or more such rewrites in a row are the same defect (a pipeline of passes instead of one scan)"""
+    rewrites = []
+    for st in _stmts_outside(fn, loop):
+        v = None
+        if isinstance(st, ast.Assign) and len(st.targets) == 1 and norm(st.targets[0]) == s:
+            v = st.value
+        elif isinstance(st, ast.Return) and st.value is not None and loop is None:
+            v = st.value
         if not (isinstance(v, ast.Call) and isinstance(v.func, ast.Attribute) and v.func.attr in ('sub', 'replace', 'translate')):
             continue
         if not any(isinstance(x, ast.Name) and x.id == s for x in ast.walk(v)):
             continue
+        rewrites.append((st, v))
+    if loop is None and len(rewrites) < 2:
+        return
+    for st, v in rewrites:
         pat = None
         if v.func.attr == 'sub':
             rc = model.fold(modname, v.func.value)
@@ -528,7 +558,18 @@ def _prepass(model, modname, fn, s, loop):
             lit = model.fold(modname, v.args[0])
             pat = re.escape(lit) if isinstance(lit, str) else None
         w = None
+        guarded = False
         if isinstance(pat, str):
+            mo = _NEG_LOOKBEHIND.match(pat)
+            if mo:
+                # a negative look-behind for the escape character: "not when its backslash is itself escaped"
+                try:
+                    lb = L.PyRegex(mo.group(1)).full()
+                    guarded = L.find_common(L.build(lb), L.build(L.rlit('\\'))) is not None
+                except Exception:
+                    guarded = False
+                if guarded:
+                    pat = pat[mo.end():]
             try:
                 rx = L.PyRegex(pat).full()
                 hit = L.find_common(L.build(rx), L.build(L.rcat(L.rlit('\\'), L.rany_star())))
@@ -536,12 +577,17 @@ def _prepass(model, modname, fn, s, loop):
                     w = ''.join(chr(c) for c in hit)
             except Exception:
                 w = None
+        what = 'the whole text is rewritten with `%s` %s' % (norm(v)[:70], 'outside the scanning loop' if loop is not None
+                                                           else 'in one of several passes, not in one scan')
+        if w and guarded:
+            e = MultiPass(st, what, '\\\\' + w, '\\ followed by the character %r denotes' % w,
+                          'the escaped backslash, then %r left undecoded by this pass: its look-behind sees a backslash, '
+                          'which is the second half of an escaped backslash' % w)
+            e.guarded = True
+            raise e
         if w:
-            written = '\\' + w
-            raise MultiPass(st, 'the whole text is rewritten with `%s` outside the scanning loop' % norm(v)[:70],
-                            written, '\\' + w[1:], 'backslash followed by the rewritten form of %r' % w)
-        raise MultiPass(st, 'the whole text is rewritten with `%s` outside the scanning loop' % norm(v)[:70],
-                        None, None, None)
+            raise MultiPass(st, what, '\\' + w, '\\' + w[1:], 'backslash followed by the rewritten form of %r' % w)
+        raise MultiPass(st, what, None, None, None)
 
 
 def extract_unescape(model, modname='zincparser', fnname='_unescape'):
@@ -553,6 +599,8 @@ def extract_unescape(model, modname='zincparser', fnname='_unescape'):
     sp = UnescapeSpec()
     sp.fn = fn
     loops = [st for st in body_wo_doc(fn) if isinstance(st, ast.While)]
+    if not loops:
+        loops = [st for st in ast.walk(fn) if isinstance(st, ast.While)]
     _prepass(model, modname, fn, s, loops[0] if len(loops) == 1 else None)
     if len(loops) != 1 or norm(loops[0].test) not in ('len(%s) > 0' % s, s, 'len(%s)' % s, '%s != \'\'' % s):
         raise Unsupported('%s: main loop not recognised' % fnname)
